@@ -30,6 +30,10 @@ LITS = [
     "nel\u0085ls\u2028ps\u2029", "\ufeffbom", "---\n- a: b\n...", "': '\"", "\\n\\t\\", "# x", "&#x27;&#60;", "<!-- c -->",
     "plain", "", " lead trail ", "\u202eRTL", "-->", "</pre></div>", "'\"><img src=x onerror=alert(1)>",
 ]
+# long texts: lines beyond every serialiser's preferred width, line breaks followed by indented long lines, blanks around line breaks (seeded change C09-m16 dumped YAML
+# strings in the folded style, whose writer breaks a line that starts with a blank at a space beyond column 80: the text no longer round-trips)
+LITS += ["\n    " + "correct horse battery staple " * 4, "word " * 40, "a" * 100 + " " + "b" * 100, "first\n  " + "x y " * 30 + "\nlast", "\n\n  lead" + " w" * 50,
+         "trail " * 20 + "\n", "tab\t" * 30, " " + "lead blank then long " * 6 + "\n " + "second line also long " * 6, "k: v " * 25 + "\n- item " * 12]
 # characters XML 1.0 cannot represent
 LITS_XMLBAD = ["z\x00z", "ff\x0cx", "\x1b[31mred", "\ufffe\uffff", "\x01\x02\x7f"]
 
@@ -227,7 +231,11 @@ def user_templates(rng, k):
     # format specifications and conversions on known tags (outside the modelled fragment: judged against Python's own str.format; found by
     # tools/mutation — the `!` marker of the re-assembled template could be altered without any check noticing)
     SPEC = ["{line:>6}|{severity!s:<8}|{test_id:^7}|{msg!r}", "{col!s:0>3}:{line!s:>4} {msg!a}", "{severity!r}{{{confidence:.3}}}", "{relpath!s:>40.40}|{range!s}"]
-    return out[:k] + ["{severity}|{msg}"] + ([rng.choice(SPEC)] if k < 5 else SPEC)
+    # the line and the column are NUMBERS: zero padding, sign and integer presentation types mean what they mean for an int (seeded change C09-m15 wrapped every value
+    # in str(): `{line:04}` wrote line 5 as `5000`, `{line:d}` produced no report); bandit validates a template with line=0 and strings for every other tag, so integer
+    # presentation types are accepted on `line` only
+    NUM = ["{line:04}|{col:03}|{test_id}", "{line:d}:{col} {severity}", "{line:+}/{line:,}/{line:<4}|{msg}", "{test_id} {line:05d}"]
+    return out[:k] + ["{severity}|{msg}"] + ([rng.choice(SPEC), rng.choice(NUM)] if k < 5 else SPEC + NUM)
 
 
 # ----------------------------------------------------------------------------- running real bandit
